@@ -220,7 +220,7 @@ func ItemFlags(w *load.World, c *core.Collector) {
 			}
 			return false
 		}
-		delOK, wrOK := false, false
+		delOK, wrOK, delSkipped := false, false, false
 		for _, b := range f.Blocks {
 			ifi, ok := b.Instrs[len(b.Instrs)-1].(*ssa.If)
 			if !ok {
@@ -229,6 +229,49 @@ func ItemFlags(w *load.World, c *core.Collector) {
 			if ld, ok := ifi.Cond.(*ssa.UnOp); ok && ld.Op == token.MUL {
 				if _, ok := elemField(ld.X, "IsDeleted"); ok && has(b, 0, "DeleteFrom") {
 					delOK = true
+					// ... and unconditionally: the element leaves the cache (delete from the items map)
+					// only after DeleteFrom has run, whatever its other flags say. An element that is
+					// dirty and deleted was persisted by an earlier flush; its keys are still there.
+					for _, db := range f.Blocks {
+						if !ssax.OnlyViaEdge(b, 0, db) {
+							continue
+						}
+						for _, din := range db.Instrs {
+							dc, ok := din.(*ssa.Call)
+							if !ok {
+								continue
+							}
+							if bi, ok := dc.Call.Value.(*ssa.Builtin); !ok || bi.Name() != "delete" {
+								continue
+							}
+							// reachable from the deleted-edge without passing a DeleteFrom?
+							seen := map[*ssa.BasicBlock]bool{}
+							var dfs func(x *ssa.BasicBlock) bool
+							dfs = func(x *ssa.BasicBlock) bool {
+								if seen[x] {
+									return false
+								}
+								seen[x] = true
+								for _, xi := range x.Instrs {
+									if xi == ssa.Instruction(dc) {
+										return true
+									}
+									if callsNamed(xi, "DeleteFrom", 0) {
+										return false
+									}
+								}
+								for _, sc := range x.Succs {
+									if dfs(sc) {
+										return true
+									}
+								}
+								return false
+							}
+							if dfs(b.Succs[0]) {
+								delSkipped = true
+							}
+						}
+					}
 				}
 				if _, ok := elemField(ld.X, "IsDirty"); ok {
 					// `IsDirty || CheckAndClearDirty()` is a short-circuit: WriteTo is behind either true edge
@@ -247,6 +290,8 @@ func ItemFlags(w *load.World, c *core.Collector) {
 		v, d := core.OK, ""
 		if !delOK {
 			v, d = core.Violation, "Flush does not call DeleteFrom for elements marked deleted"
+		} else if delSkipped {
+			v, d = core.Violation, "Flush can drop an element marked deleted from the cache without calling DeleteFrom (the call depends on another flag): the keys of an item that was persisted earlier stay in the bucket and a cold read brings the item back"
 		} else if !wrOK {
 			v, d = core.Violation, "Flush does not call WriteTo for elements marked dirty"
 		}
